@@ -123,7 +123,11 @@ def find_witness(obligation, seed, budget=3000):
     if not drv.build():
         return None, "replay driver does not build against the current tree:\n" + drv.build_log
     try:
-        w = f(drv, random.Random(seed), budget)
+        import inspect
+        if "obligation" in inspect.signature(f).parameters:
+            w = f(drv, random.Random(seed), budget, obligation=obligation)
+        else:
+            w = f(drv, random.Random(seed), budget)
     finally:
         drv.close()
     return w, ("witness found" if w else "searched %d inputs, none disagrees" % budget)
@@ -333,4 +337,66 @@ def search_scoping(drv, rng, budget):
         if got != "ok":
             return {"call": "CompiledProgram::new + Bit Machine on a shadowing program", "input": {"program": src},
                     "op": ["run", hx(src), hx(""), hx(""), "0"], "expected": "ok", "observed": got}
+    return None
+
+
+# ---------------------------------------------------------------- C11 / C06 literals (value.rs)
+UINT_BITS = {"u1": 1, "u2": 2, "u4": 4, "u8": 8, "u16": 16, "u32": 32, "u64": 64, "u128": 128, "u256": 256}
+
+def show_uint(v, bits):
+    """UIntValue as Display prints it: decimal up to 64 bits, 0x + zero-padded hex for u128/u256"""
+    return str(v) if bits <= 64 else "0x%0*x" % (bits // 4, v)
+
+
+def spec_parse_hex(digits, ty):
+    """contracts/literal.vc parse_hexadecimal: (expected, strict) - strict False when the contract leaves the case open"""
+    if ty in UINT_BITS:
+        bits = UINT_BITS[ty]
+        if len(digits) > 0 and bits >= 8 and len(digits) * 4 == bits:
+            return "ok " + show_uint(int(digits, 16), bits), True
+        return "err", True
+    n = int(ty[len("[u8; "):-1])
+    if len(digits) == 2 * n and len(digits) > 0:
+        return "ok 0x" + digits.lower(), True
+    if len(digits) == 0 and n == 0:
+        return None, False          # `[u8; 0] = 0x_`: the contract does not say
+    return "err", True
+
+
+@searcher("literal/Value::parse_hexadecimal")
+def search_parse_hex(drv, rng, budget, obligation=""):
+    tys = list(UINT_BITS) + ["[u8; %d]" % n for n in (0, 1, 2, 3, 4, 32, 33, 9223372036854775807, 9223372036854775808, 18446744073709551615)]
+    if "/overflow" in obligation:
+        tys = [t for t in tys if t.startswith("[")][::-1] + [t for t in tys if not t.startswith("[")]
+    cases = []
+    for ty in tys:
+        for ln in (0, 1, 2, 3, 4, 6, 8, 16, 32, 64, 66):
+            cases.append((ty, "".join(rng.choice("0123456789abcdefABCDEF") for _ in range(ln))))
+    for ty, digits in cases:
+        exp, strict = spec_parse_hex(digits, ty)
+        if not strict:
+            continue
+        got = drv.call("parse_hex", hx(digits), hx(ty))
+        ok = (got.lower() == exp.lower()) if exp.startswith("ok") else got == "err"
+        if "/overflow" in obligation and "overflow" not in got:
+            continue
+        if not ok:
+            return {"call": "Value::parse_hexadecimal", "input": {"digits": digits, "type": ty}, "op": ["parse_hex", hx(digits), hx(ty)],
+                    "expected": exp, "observed": got}
+    return None
+
+
+@searcher("literal/UIntValue::parse_decimal")
+def search_parse_dec(drv, rng, budget):
+    for ty, bits in UINT_BITS.items():
+        M = 2 ** bits
+        cands = ["", "0", "00", "1", str(M - 1), str(M), str(M + 1), "0" * 5 + str(M - 1), str(M * 10), str(M // 10), "9" * 80]
+        cands += [str(rng.randrange(M)) for _ in range(20)] + [str(10 ** k) for k in range(0, 80, 7)]
+        for d in cands:
+            v = int(d) if d else None
+            exp = "ok " + show_uint(v, bits) if (d and v < M) else "err"
+            got = drv.call("parse_dec", hx(d), hx(ty))
+            if got.lower() != exp.lower():
+                return {"call": "UIntValue::parse_decimal", "input": {"digits": d, "type": ty}, "op": ["parse_dec", hx(d), hx(ty)],
+                        "expected": exp, "observed": got}
     return None
